@@ -67,6 +67,12 @@ VALS = {
     'list': [[1, 2], []], 'tuple': [(1, 2), ()], 'dict': [{'a': 1}, {'a': 2, 'b': 3}], 'set': [{1, 2}, {2, 3}],
     'none': [None], 'complex': [1 + 2j], 'full': [Full(3)], 'ni': [NI()], 'onlylt': [OnlyLt(1)],
 }
+MORE = {'int': [255, 1], 'float': [float('inf'), 1e-9], 'str': ['a b', 'AB'], 'list': [[[1], 'x'], [2, 1]], 'tuple': [(2,), ('a', 1)],
+        'dict': [{}, {1: 'one'}], 'set': [set(), {'a'}], 'frozenset': [frozenset({1, 2})], 'bytes': [b'ab'], 'range': [range(3)],
+        'full': [Full(0)], 'complex': [0j]}
+THOROUGH_VALS = {k: list(v) + MORE.get(k, []) for k, v in VALS.items()}
+for _k in MORE:
+    THOROUGH_VALS.setdefault(_k, MORE[_k])
 QUICK_VALS = {k: v[:2] if k in ('int', 'float', 'dict', 'set', 'str') else v[:1] for k, v in VALS.items()}
 
 BIN = {n: getattr(operator, n) for n in ['add', 'sub', 'mul', 'truediv', 'floordiv', 'mod', 'pow', 'lshift', 'rshift',
@@ -155,7 +161,8 @@ def judge(ctx, op, classes, side, eok, exp, gok, got, buf, case):
         sig = 'different result'
     ctx.outcome(('ok' if eok else 'raises') + ('/ok' if gok else '/raises'))
     if sig:
-        ctx.fail({'symptom': sig, 'op': op, 'proxy_side': side, 'operand_classes': classes}, case=case,
+        ctx.fail({'symptom': sig, 'op': op, 'proxy_side': side, 'operand_classes': classes,
+                  'left_class': classes.split(',')[0]}, case=case,
                  expected=repr(exp)[:80] if eok else 'raises ' + type(exp).__name__,
                  got=repr(unwrap_value(got))[:80] if gok else repr(got)[:120], stdout=buf.getvalue()[:80])
 
@@ -213,12 +220,12 @@ def make_unary(vals):
 
 
 def bounds(tier):
-    v = QUICK_VALS if tier == 'quick' else VALS
+    v = QUICK_VALS if tier == 'quick' else THOROUGH_VALS
     return {'binary_ops': len(BIN), 'unary_ops': len(UN), 'value_classes': len(v),
             'values': sum(len(x) for x in v.values()), 'placements': ['left', 'right', 'both']}
 
 
 def phases(tier):
-    v = QUICK_VALS if tier == 'quick' else VALS
+    v = QUICK_VALS if tier == 'quick' else THOROUGH_VALS
     return [Phase('binary', make_binary(v), setup=_setup, chunk=500, describe='binary op x value x value x placement'),
-            Phase('unary', make_unary(VALS), setup=_setup, chunk=200, describe='unary/builtin op x value')]
+            Phase('unary', make_unary(VALS if tier == 'quick' else THOROUGH_VALS), setup=_setup, chunk=200, describe='unary/builtin op x value')]
